@@ -220,8 +220,172 @@ func (g *Gen) genFacts() {
 	}
 	sb.WriteString("/-- Package-level encodings `X = <pkg>.NewEncoding(alphabet).WithPadding(pad)`: (package, var, constructor package, alphabet, padding rune; -1 = none). -/\n")
 	fmt.Fprintf(&sb, "def encodings : List (String × String × String × Bytes × Int) := [\n%s\n]\n\n", strings.Join(encs, ",\n"))
+	sb.WriteString(g.goroutineFacts())
 	sb.WriteString("end GoCrypt.Gen.Facts\n")
 	g.emit("Facts.lean", sb.String())
+}
+
+// goroutineFacts: one record per `go` statement of the module's non-test code. For each: where it is,
+// what it starts, the headers of the enclosing loops (outermost first), and the WaitGroup discipline
+// around it, read off the syntax:
+//   addBefore   – the statement just before the `go` in the same block is `<wg>.Add(1)`
+//   waitAfter   – the statement just after the innermost enclosing loop is `<wg>.Wait()`
+//   wgFresh     – `var <wg> sync.WaitGroup` is declared in the same block as that loop and its Wait
+//   doneLast    – the started function (a closure bound in the same function) ends with `<wg>.Done()` as
+//                 its last top-level statement, or begins with `defer <wg>.Done()`
+//   noEarlyExit – that closure contains no `return`, `goto` or `panic(` before the Done
+//   goCount     – number of `go` statements in the enclosing function
+func (g *Gen) goroutineFacts() string {
+	var recs []string
+	for _, k := range sortedKeys(g.pkgs) {
+		p := g.pkgs[k]
+		for _, f := range p.Syntax {
+			for _, d := range f.Decls {
+				fd, ok := d.(*ast.FuncDecl)
+				if !ok || fd.Body == nil {
+					continue
+				}
+				// closures bound to local names
+				closures := map[string]*ast.FuncLit{}
+				goCount := 0
+				ast.Inspect(fd.Body, func(n ast.Node) bool {
+					switch v := n.(type) {
+					case *ast.AssignStmt:
+						for i, r := range v.Rhs {
+							if fl, ok := r.(*ast.FuncLit); ok && i < len(v.Lhs) {
+								if id, ok := v.Lhs[i].(*ast.Ident); ok {
+									closures[id.Name] = fl
+								}
+							}
+						}
+					case *ast.GoStmt:
+						goCount++
+					}
+					return true
+				})
+				if goCount == 0 {
+					continue
+				}
+				var walk func(list []ast.Stmt, loops []string, enclosing []ast.Stmt, loopIdx int, outer []ast.Stmt)
+				isCall := func(st ast.Stmt, method string) (string, bool) {
+					es, ok := st.(*ast.ExprStmt)
+					if !ok {
+						return "", false
+					}
+					call, ok := es.X.(*ast.CallExpr)
+					if !ok {
+						return "", false
+					}
+					sel, ok := call.Fun.(*ast.SelectorExpr)
+					if !ok || sel.Sel.Name != method {
+						return "", false
+					}
+					return g.src(sel.X), true
+				}
+				// walk: list = statements of the current block; outer/loopIdx = the block containing the innermost loop and the loop's index in it
+				walk = func(list []ast.Stmt, loops []string, _ []ast.Stmt, loopIdx int, outer []ast.Stmt) {
+					for i, st := range list {
+						switch v := st.(type) {
+						case *ast.GoStmt:
+							addBefore, waitAfter, wgFresh, doneLast, noEarly := false, false, false, false, true
+							wg := ""
+							if i > 0 {
+								if x, ok := isCall(list[i-1], "Add"); ok {
+									addBefore, wg = true, x
+								}
+							}
+							if outer != nil && loopIdx+1 < len(outer) {
+								if x, ok := isCall(outer[loopIdx+1], "Wait"); ok && (wg == "" || x == wg) {
+									waitAfter = true
+									if wg == "" {
+										wg = x
+									}
+								}
+							}
+							for _, o := range outer {
+								if ds, ok := o.(*ast.DeclStmt); ok {
+									if gd, ok := ds.Decl.(*ast.GenDecl); ok && gd.Tok == token.VAR {
+										for _, sp := range gd.Specs {
+											vs := sp.(*ast.ValueSpec)
+											if len(vs.Names) == 1 && vs.Names[0].Name == wg && vs.Type != nil && g.src(vs.Type) == "sync.WaitGroup" {
+												wgFresh = true
+											}
+										}
+									}
+								}
+							}
+							callee := g.src(v.Call.Fun)
+							var body *ast.BlockStmt
+							if fl, ok := v.Call.Fun.(*ast.FuncLit); ok {
+								body = fl.Body
+								callee = "func literal"
+							} else if id, ok := v.Call.Fun.(*ast.Ident); ok {
+								if fl, ok := closures[id.Name]; ok {
+									body = fl.Body
+								}
+							}
+							if body != nil && len(body.List) > 0 {
+								wgIn := wg
+								// the WaitGroup reaches the closure as a pointer parameter named like the variable
+								wgIn = strings.TrimPrefix(wgIn, "&")
+								if x, ok := isCall(body.List[len(body.List)-1], "Done"); ok && x == wgIn {
+									doneLast = true
+								}
+								if ds, ok := body.List[0].(*ast.DeferStmt); ok {
+									if sel, ok := ds.Call.Fun.(*ast.SelectorExpr); ok && sel.Sel.Name == "Done" && g.src(sel.X) == wgIn {
+										doneLast = true
+									}
+								}
+								ast.Inspect(body, func(n ast.Node) bool {
+									switch w := n.(type) {
+									case *ast.ReturnStmt:
+										noEarly = false
+									case *ast.BranchStmt:
+										if w.Tok == token.GOTO {
+											noEarly = false
+										}
+									case *ast.CallExpr:
+										if id, ok := w.Fun.(*ast.Ident); ok && id.Name == "panic" {
+											noEarly = false
+										}
+									case *ast.FuncLit:
+										return false
+									}
+									return true
+								})
+							}
+							var ls []string
+							for _, l := range loops {
+								ls = append(ls, strLit(l))
+							}
+							recs = append(recs, fmt.Sprintf("  { site := %s, fn := %s, starts := %s, loops := [%s], addBefore := %v, waitAfter := %v, wgFresh := %v, doneLast := %v, noEarlyExit := %v, goCount := %d }",
+								strLit(k), strLit(fd.Name.Name), strLit(callee), strings.Join(ls, ", "), addBefore, waitAfter, wgFresh, doneLast, noEarly, goCount))
+						case *ast.ForStmt:
+							hdr := strings.Join(strings.Fields(g.src(v.Init)+"; "+g.src(v.Cond)+"; "+g.src(v.Post)), " ")
+							walk(v.Body.List, append(append([]string{}, loops...), hdr), nil, i, list)
+						case *ast.RangeStmt:
+							hdr := "range " + strings.Join(strings.Fields(g.src(v.X)), " ")
+							walk(v.Body.List, append(append([]string{}, loops...), hdr), nil, i, list)
+						case *ast.BlockStmt:
+							walk(v.List, loops, nil, loopIdx, outer)
+						case *ast.IfStmt:
+							// a `go` under a condition: recorded with the condition as a pseudo-loop header so that it shows
+							walk(v.Body.List, append(append([]string{}, loops...), "if "+strings.Join(strings.Fields(g.src(v.Cond)), " ")), nil, loopIdx, outer)
+							if eb, ok := v.Else.(*ast.BlockStmt); ok {
+								walk(eb.List, append(append([]string{}, loops...), "else of "+strings.Join(strings.Fields(g.src(v.Cond)), " ")), nil, loopIdx, outer)
+							}
+						}
+					}
+				}
+				walk(fd.Body.List, nil, nil, -1, nil)
+			}
+		}
+	}
+	var sb strings.Builder
+	sb.WriteString("structure GoStmtFact where\n  site : String\n  fn : String\n  starts : String\n  loops : List String\n  addBefore : Bool\n  waitAfter : Bool\n  wgFresh : Bool\n  doneLast : Bool\n  noEarlyExit : Bool\n  goCount : Nat\n  deriving Repr, DecidableEq\n\n")
+	sb.WriteString("/-- Every `go` statement of the module's non-test code with the WaitGroup discipline around it (see gogen/facts.go). -/\n")
+	fmt.Fprintf(&sb, "def goStmts : List GoStmtFact := [\n%s\n]\n\n", strings.Join(recs, ",\n"))
+	return sb.String()
 }
 
 func (g *Gen) constStrInfo(info *types.Info, e ast.Expr) (string, bool) {
